@@ -116,7 +116,7 @@ def run_dup(bs, replicas, d):
         dirs.append(root)
     out = os.path.join(d, "out")
     old = m.majority_vote_byte_scan.__defaults__
-    m.majority_vote_byte_scan.__defaults__ = (bs, False)
+    m.majority_vote_byte_scan.__defaults__ = (bs,) + tuple(old[1:])       # only the chunk size is overridden
     cwd = os.getcwd()
     os.chdir(d)
     try:
